@@ -441,13 +441,13 @@ func TestReplay_Mkdir(t *testing.T) {
 			if err := MkdirFromRoot(root, WithTargetDir(target), WithFileExtensions(ext)); err != ErrExistPath {
 				t.Fatalf("REPLAY-FAIL gtree.defaultMkdirerSimple.mkdir/post#exists input: %s: second run returned %v", desc, err)
 			}
-			if specIsFile(ext, root) {
-				// KNOWN FINDING (C08, /verif/known_findings.json): a root that Mkdir creates as a regular file cannot be verified
-				// (fs.WalkDir on a file: "stat .: not a directory")
-				continue
-			}
+			// (a root that Mkdir creates as a regular file included: the defect recorded as model:fs.WalkDir#file-root was repaired)
 			if err := VerifyFromRoot(root, WithTargetDir(target), WithStrictVerify()); err != nil {
-				t.Fatalf("REPLAY-FAIL gtree.defaultVerifierSimple.verify/post#ok input: %s ext=%v: strict verify after mkdir: %v", desc, ext, err)
+				obl := "gtree.defaultVerifierSimple.verify/post#ok"
+				if specIsFile(ext, root) {
+					obl = "gtree.defaultVerifierSimple.verifyRoot/post#exists"
+				}
+				t.Fatalf("REPLAY-FAIL %s input: %s ext=%v: strict verify after mkdir: %v", obl, desc, ext, err)
 			}
 		}
 	})
